@@ -1,9 +1,529 @@
-import FormulaeModel.Spec.C06
+import FormulaeModel.Proofs.RowsDesign
+import FormulaeModel.Proofs.RowsGuard
+import FormulaeModel.Driver.C04
+set_option linter.unusedSimpArgs false
+/-
+C06 — evaluating new data reproduces the training encoding.
+
+Theorems about the evaluation model (`Model/Design.lean`, `Model/Matrices.lean`), for every
+well-formed frame, every index list `is` with indices `< nrows` (any subset, order, repetition,
+single row) and every component / term / group-specific term of the row-wise fragment:
+
+* `C06_lookup_rows`, `C06_evalArg_rows`   lazy evaluation with the remembered transform state is
+                                           row-wise (the state-machine lemma; `center` is the stateful case)
+* `C06_state_frozen`, `C06_state_frozen_seq`  evaluating any sequence of new frames never changes the state
+* `C06_levels_frozen`                      new data are coded with the remembered levels / contrast matrix
+* `C06_rows_comp`, `C06_rows_term`, `C06_rows_group`, `C06_rows_common`, `C06_rows_groups`, `C06_rows`
+* `C06_guard_syntactic`                    a syntactic sufficient condition for the data part of the guard
+* `C06_rows_Statement` (unguarded) with `C06_counterexample_D13`, `C06_counterexample_D14`.
+
+The fragment is everything the model covers except the two recorded defects: `RowwiseOk e` (no
+call of `binary`/`B` — D14) and `D13Free env e` (no `C/T/S` call node receives explicit `levels` or
+an ordered categorical as data — D13).  Missing values in categorical data need no guard: the
+model's training path rejects them explicitly.  The statements are about non-response components
+(`isResponse = false`): responses are never evaluated on new data.
+-/
 namespace FormulaeModel.C06
 open FormulaeModel FormulaeModel.Design FormulaeModel.Spec.C06
 
-/-- selecting rows commutes with the specification's own notion of "the corresponding rows" -/
-theorem selectRows_length (m : Matrix) (is : List Nat) : (selectRows m is).length = is.length := by
-  simp [selectRows]
+/-! ### guards as decidable predicates -/
+
+/-- every component expression of the term is in the row-wise fragment; a term has a component -/
+def termOkB (env : Env) (table : List (String × Expr)) (spec : TermSpec) : Bool :=
+  !spec.comps.isEmpty &&
+  spec.comps.all (fun c => match compExpr table c.1 with
+    | .ok e => RowwiseOk e && D13Free env e
+    | .error _ => true)
+
+def groupOkB (env : Env) (table : List (String × Expr)) (spec : GroupSpec) : Bool :=
+  termOkB env table spec.factor &&
+  (match spec.expr with
+   | none => true
+   | some ts => termOkB env table ts)
+
+theorem termOk_of (env : Env) (table : List (String × Expr)) (spec : TermSpec)
+    (h : termOkB env table spec = true) : TermOk env table spec := by
+  simp only [termOkB, Bool.and_eq_true, Bool.not_eq_true', List.isEmpty_eq_false_iff, List.all_eq_true] at h
+  refine ⟨h.1, ?_⟩
+  intro c hc e he
+  have := h.2 c hc
+  rw [he] at this
+  simpa using this
+
+theorem groupOk_of (env : Env) (table : List (String × Expr)) (spec : GroupSpec)
+    (h : groupOkB env table spec = true) : GroupOk env table spec := by
+  simp only [groupOkB, Bool.and_eq_true] at h
+  refine ⟨termOk_of _ _ _ h.1, ?_⟩
+  intro ts hts
+  have := h.2
+  rw [hts] at this
+  exact termOk_of _ _ _ this
+
+/-- a well-formed training situation: rectangular frame, scalar namespace, indices inside the frame -/
+structure Situation (env : Env) (is : List Nat) : Prop where
+  wf : env.frame.wellFormed = true
+  names : env.namesScalar = true
+  idx : ∀ i ∈ is, i < env.frame.nrows
+
+/-! ### lazy evaluation -/
+
+/-- (1) a name looked up in the row-selected environment is the row selection of the training
+value (`Val.rows` selects the rows of vector-like values and leaves scalars alone); errors coincide -/
+theorem C06_lookup_rows (env : Env) (hn : env.namesScalar = true) (is : List Nat) (name : String) :
+    lookupName (env.rows is) name = (lookupName env name).map (Val.rows is) :=
+  lookupName_rows_eq env hn is name
+
+/-- (2) **state-machine lemma.**  An expression of the row-wise fragment that evaluated to `v` on
+the training frame, leaving the transform state `t`, evaluates on rows `is` of that frame *with
+state `t`* to rows `is` of `v`, and leaves `t`: the parameters estimated at training time (the mean
+of `center`) are reused, not re-estimated. -/
+theorem C06_evalArg_rows (env : Env) (is : List Nat) (S : Situation env is) (e : Expr)
+    (hok : RowwiseOk e = true) (hd : D13Free env e = true)
+    (kw : Option String) (v : Val) (t : TS) (h : evalArg env e none = .ok (kw, v, t)) :
+    evalArg (env.rows is) e (some t) = .ok (kw, v.rows is, t) :=
+  (evalArg_rows env S.wf S.names is S.idx e hok hd kw v t h).2
+
+/-- **Parameters are frozen.** For *every* expression the model covers (including `binary`) and
+*every* later frame (not only rows of the training frame): a successful evaluation with the state
+remembered from training returns that same state. -/
+theorem C06_state_frozen (env env' : Env) (e : Expr) (kw kw' : Option String) (v v' : Val) (t t' : TS)
+    (h : evalArg env e none = .ok (kw, v, t)) (h' : evalArg env' e (some t) = .ok (kw', v', t')) :
+    t' = t :=
+  evalArg_frozen env env' e kw kw' v v' t t' h h'
+
+/-- the state after evaluating `e` on a sequence of frames starting from state `t`
+(`none`: some evaluation raised).  Python mutates the transform instances in place; this is the
+value of that hidden state. -/
+def stateAfter (e : Expr) : TS → List Env → Option TS
+  | t, [] => some t
+  | t, env :: envs =>
+    match evalArg env e (some t) with
+    | .ok (_, _, t') => stateAfter e t' envs
+    | .error _ => none
+
+/-- … lifted over call sequences: after training, evaluating any sequence of new frames never
+changes the state (induction over the sequence). This is what justifies `newComp` not returning a
+new `CompState`. -/
+theorem C06_state_frozen_seq (env : Env) (e : Expr) (kw : Option String) (v : Val) (t : TS)
+    (h : evalArg env e none = .ok (kw, v, t)) (envs : List Env) (t' : TS)
+    (hs : stateAfter e t envs = some t') : t' = t := by
+  induction envs with
+  | nil => simp only [stateAfter, Option.some.injEq] at hs; exact hs.symm
+  | cons env' envs ih =>
+    simp only [stateAfter] at hs
+    split at hs
+    · rename_i kw' v' t1 h1
+      have := evalArg_frozen env env' e kw kw' v v' t t1 h h1
+      subst this
+      exact ih hs
+    · simp at hs
+
+/-- a row coded with the *remembered* levels and contrast matrix: row `i` of the matrix where `i`
+is the position of some level in `st.levels`, or the zero row of an unseen value -/
+def CodedBy (st : CompState) (cm : ContrastMatrix) (r : List Entry) : Prop :=
+  (∃ l i, indexOf? l st.levels = some i ∧ r = rowOfInts (cm.rows.getD i [])) ∨
+  r = List.replicate cm.labels.length (some 0)
+
+theorem newCategoric_coded (st : CompState) (mode : UnseenMode) (xs : List (Option Level)) (m : Matrix)
+    (w : Bool) (h : newCategoric st mode xs = .ok (m, w)) :
+    ∃ cm, st.contrast = some cm ∧ ∀ r ∈ m, CodedBy st cm r := by
+  unfold newCategoric at h
+  split at h
+  · simp at h
+  · rename_i cm hcm
+    refine ⟨cm, hcm, ?_⟩
+    simp only at h
+    split at h
+    · simp only [bind_ok, pure_ok, Prod.mk.injEq] at h
+      obtain ⟨m', hm', rfl, rfl⟩ := h
+      intro r hr
+      obtain ⟨k, hk, rfl⟩ := List.mem_iff_getElem.1 hr
+      obtain ⟨hl, hall⟩ := mapM_ok_get _ xs m' hm'
+      have := hall k (by omega) hk
+      cases hxi : xs[k]'(by omega) with
+      | none => rw [hxi] at this; simp at this
+      | some l =>
+        rw [hxi] at this
+        simp only at this
+        split at this
+        · rename_i i hi
+          simp only [pure_ok] at this
+          exact Or.inl ⟨l, i, hi, this.symm⟩
+        · simp at this
+    · split at h
+      · simp at h
+      · simp only [pure_ok, Prod.mk.injEq] at h
+        obtain ⟨rfl, rfl⟩ := h
+        intro r hr
+        simp only [List.mem_map] at hr
+        obtain ⟨x, _, rfl⟩ := hr
+        cases x with
+        | none => exact Or.inr rfl
+        | some l =>
+          simp only [Option.bind_some]
+          cases hi : indexOf? l st.levels with
+          | none => exact Or.inr rfl
+          | some i => exact Or.inl ⟨l, i, hi, rfl⟩
+
+/-- **Levels and contrasts are frozen.** Whatever the new frame, a categorical component's new
+matrix is made of rows of the contrast matrix remembered in `st`, indexed by the position of the
+new values in the levels remembered in `st` (zero rows for unseen values under the non-default
+policies): nothing is re-sorted or re-chosen from the frame being predicted. -/
+theorem C06_levels_frozen (st : CompState) (env : Env) (mode : UnseenMode) (m : Matrix) (w : Bool)
+    (hk : st.kind = .categoric) (h : newComp st env mode = .ok (m, w)) :
+    ∃ cm, st.contrast = some cm ∧ ∀ r ∈ m, CodedBy st cm r := by
+  unfold newComp at h
+  simp only [hk] at h
+  split at h
+  rotate_left 2
+  · split at h
+    · simp at h
+    · split at h
+      · rename_i heq; cases heq
+      · simp only [bind_ok] at h
+        obtain ⟨ls, _, h⟩ := h
+        exact newCategoric_coded st mode _ m w h
+      · rename_i heq; cases heq
+      · exact newCategoric_coded st mode _ m w h
+      · simp at h
+  all_goals (
+    simp only [bind_ok] at h
+    obtain ⟨⟨v, t⟩, _, h⟩ := h
+    simp only [show (CompKind.categoric == CompKind.numeric) = false from rfl, Bool.false_eq_true,
+      if_false] at h
+    split at h
+    · exact newCategoric_coded st mode _ m w h
+    · exact newCategoric_coded st mode _ m w h
+    · simp only [bind_ok] at h
+      obtain ⟨ls, _, h⟩ := h
+      exact newCategoric_coded st mode _ m w h
+    · simp at h)
+
+
+/-! ### the row identity -/
+
+/-- **One component** (`Variable` / `Call`, common or grouping factor, full or reduced coding):
+`eval_new_data` on rows `is` of the training frame returns rows `is` of the training value, with
+no warning.  Guard = D14 ∪ D13 exactly. -/
+theorem C06_rows_comp (env : Env) (is : List Nat) (S : Situation env is) (name : String) (e : Expr)
+    (forced full : Bool) (mode : UnseenMode) (out : CompOut)
+    (hok : RowwiseOk e = true) (hd : D13Free env e = true)
+    (h : trainComp env name e forced false full = .ok out) :
+    newComp out.st (env.rows is) mode = .ok (selectRows out.value is, false) :=
+  (trainComp_rows env S.wf S.names is S.idx name e forced full mode out hok hd h).1
+
+/-- The data part of the guard has a purely syntactic sufficient condition: no `C/T/S` call is
+written with a `levels` argument (third positional or keyword) and no name in the expression refers
+to an ordered categorical column of the training frame. -/
+theorem C06_guard_syntactic (env : Env) (hn : env.namesScalar = true) (e : Expr)
+    (h1 : NoLevelsArg e = true) (h2 : UnorderedNames env e = true) : D13Free env e = true :=
+  d13Free_of_syntactic env hn e h1 h2
+
+/-- `C06_rows_comp` under the syntactic guard -/
+theorem C06_rows_comp_syntactic (env : Env) (is : List Nat) (S : Situation env is) (name : String)
+    (e : Expr) (forced full : Bool) (mode : UnseenMode) (out : CompOut)
+    (hok : RowwiseOk e = true) (h1 : NoLevelsArg e = true) (h2 : UnorderedNames env e = true)
+    (h : trainComp env name e forced false full = .ok out) :
+    newComp out.st (env.rows is) mode = .ok (selectRows out.value is, false) :=
+  C06_rows_comp env is S name e forced full mode out hok (C06_guard_syntactic env S.names e h1 h2) h
+
+/-- **One term** (interaction of components): `reduceMatrices` commutes with row selection. -/
+theorem C06_rows_term (env : Env) (is : List Nat) (S : Situation env is) (table : List (String × Expr))
+    (spec : TermSpec) (forced : Bool) (mode : UnseenMode) (out : TermOut)
+    (hok : termOkB env table spec = true)
+    (h : trainTerm env table spec forced false = .ok out) :
+    newTerm out.st (env.rows is) mode = .ok (selectRows out.data is, false) :=
+  (trainTerm_rows env S.wf S.names is S.idx table spec forced mode out (termOk_of _ _ _ hok) h).1
+
+/-- **One group-specific term** `(expr | factor)`: every selected value of the factor was seen in
+training and the factor is coded full, so no indicator row is all zero, no "new group" column is
+appended, and the Khatri-Rao product commutes with row selection. -/
+theorem C06_rows_group (env : Env) (is : List Nat) (S : Situation env is) (table : List (String × Expr))
+    (spec : GroupSpec) (mode : UnseenMode) (out : GroupOut)
+    (hok : groupOkB env table spec = true)
+    (h : trainGroup env table spec = .ok out) :
+    newGroup out.st (env.rows is) mode = .ok (selectRows out.data is, false) :=
+  (trainGroup_rows env S.wf S.names is S.idx table spec mode out (groupOk_of _ _ _ hok) h).1
+
+/-- the guard for a whole design -/
+def designOkB (env : Env) (table : List (String × Expr)) (common : List (Option TermSpec))
+    (groups : List GroupSpec) : Bool :=
+  common.all (fun s => match s with | none => true | some s => termOkB env table s) &&
+  groups.all (groupOkB env table)
+
+/-- **The common-effects matrix** (`CommonEffectsMatrix.evaluate_new_data`): intercept column and
+term matrices stacked side by side. -/
+theorem C06_rows_common (env : Env) (is : List Nat) (S : Situation env is) (table : List (String × Expr))
+    (specs : List (Option TermSpec)) (mode : UnseenMode) (parts : List (Option TermOut))
+    (hok : specs.all (fun s => match s with | none => true | some s => termOkB env table s) = true)
+    (h : trainCommon env table specs = .ok parts) :
+    newCommonMatrix parts (env.rows is) mode = .ok (selectRows (commonMatrix env.frame.nrows parts) is) := by
+  apply trainCommon_rows env S.wf S.names is S.idx table specs mode parts _ h
+  intro s hs
+  simp only [List.all_eq_true] at hok
+  exact termOk_of _ _ _ (hok (some s) hs)
+
+/-- **The group-effects matrix** (`GroupEffectsMatrix.evaluate_new_data`). -/
+theorem C06_rows_groups (env : Env) (is : List Nat) (S : Situation env is) (table : List (String × Expr))
+    (specs : List GroupSpec) (mode : UnseenMode) (gs : List GroupOut)
+    (hok : specs.all (groupOkB env table) = true)
+    (h : trainGroups env table specs = .ok gs) :
+    newGroupMatrix gs (env.rows is) mode = .ok (selectRows (groupMatrix env.frame.nrows gs) is) := by
+  apply trainGroups_rows env S.wf S.names is S.idx table specs mode gs _ h
+  intro s hs
+  simp only [List.all_eq_true] at hok
+  exact groupOk_of _ _ _ (hok s hs)
+
+/-- **C06 (assembled).** For a design trained on `env` — any formula whose components are in the
+row-wise fragment — and any rows `is` of the training frame, both matrices evaluated on the new
+frame satisfy the specification `Spec.C06.holds` against the training matrices. -/
+theorem C06_rows (env : Env) (is : List Nat) (S : Situation env is) (table : List (String × Expr))
+    (common : List (Option TermSpec)) (groups : List GroupSpec) (mode : UnseenMode)
+    (parts : List (Option TermOut)) (gs : List GroupOut)
+    (hok : designOkB env table common groups = true)
+    (hc : trainCommon env table common = .ok parts) (hg : trainGroups env table groups = .ok gs) :
+    ∃ newC newG,
+      newCommonMatrix parts (env.rows is) mode = .ok newC ∧
+      newGroupMatrix gs (env.rows is) mode = .ok newG ∧
+      holds (commonMatrix env.frame.nrows parts) newC is = true ∧
+      holds (groupMatrix env.frame.nrows gs) newG is = true := by
+  simp only [designOkB, Bool.and_eq_true] at hok
+  exact ⟨_, _, C06_rows_common env is S table common mode parts hok.1 hc,
+    C06_rows_groups env is S table groups mode gs hok.2 hg,
+    holds_of_eq _ _ _ rfl, holds_of_eq _ _ _ rfl⟩
+
+/-- the training matrices of the theorems are the matrices the driver (the correspondence check)
+stacks: `Driver.C04.commonStack` / `groupStack` -/
+theorem C06_tie_commonStack (n : Nat) (t : Driver.C04.Trained) :
+    (Driver.C04.commonStack n t).matrix = commonMatrix n (t.common.map (·.2)) := by
+  simp only [Driver.C04.commonStack, stack, commonMatrix, List.map_map]
+  congr 1
+  apply List.map_congr_left
+  intro p _
+  simp only [Function.comp]
+  cases p.2 <;> rfl
+
+theorem C06_tie_groupStack (n : Nat) (t : Driver.C04.Trained) :
+    (Driver.C04.groupStack n t).matrix = groupMatrix n t.group := by
+  simp only [Driver.C04.groupStack, stack, groupMatrix, List.map_map]
+  rfl
+
+/-! ### the unguarded statement is false of the pinned tree: D13, D14 -/
+
+/-- The full statement at component level, *without* the fragment guard. -/
+def C06_rows_Statement : Prop :=
+  ∀ (env : Env) (is : List Nat), Situation env is →
+  ∀ (name : String) (e : Expr) (forced full : Bool) (mode : UnseenMode) (out : CompOut),
+    trainComp env name e forced false full = .ok out →
+    newComp out.st (env.rows is) mode = .ok (selectRows out.value is, false)
+
+def tk (k : Kind) (s : String) : Token := ⟨k, s⟩
+def var (s : String) : Expr := .variable (tk .IDENTIFIER s)
+def call1 (f : String) (a : Expr) : Expr :=
+  .call (var f) (tk .LEFT_PAREN "(") (.last a) (tk .RIGHT_PAREN ")")
+def call2 (f : String) (a b : Expr) : Expr :=
+  .call (var f) (tk .LEFT_PAREN "(") (.more a (tk .COMMA ",") (.last b)) (tk .RIGHT_PAREN ")")
+def kwarg (k : String) (v : Expr) : Expr := .assign (var k) (tk .EQUAL "=") v
+
+/-- a frame with a 3-level factor `f`, a numeric column `x`, an integer column `k`, an ordered
+categorical `co` and a grouping column `g` -/
+def exFrame : Frame :=
+  [⟨"f", .string, [.str "a", .str "b", .str "c", .str "a"]⟩,
+   ⟨"x", .numeric false, [.num 1, .num 2, .num 4, .num 5]⟩,
+   ⟨"k", .numeric true, [.num 1, .num 2, .num 3, .num 2]⟩,
+   ⟨"co", .categorical true ["lo", "mid", "hi"], [.str "lo", .str "mid", .str "hi", .str "lo"]⟩,
+   ⟨"g", .string, [.str "u", .str "v", .str "u", .str "v"]⟩]
+
+def exEnv : Env := { frame := exFrame, names := [("lv_f", .levels [.s "c", .s "a", .s "b"])] }
+
+def trainedValue (r : M CompOut) : Option Matrix :=
+  match r with
+  | .ok o => some o.value
+  | .error _ => none
+
+/-- `newComp` applied to a trained component (`none`: training or prediction raised) -/
+def predicted (r : M CompOut) (env : Env) : Option Matrix :=
+  match r with
+  | .ok o => (match newComp o.st env .error with
+    | .ok (m, _) => some m
+    | .error _ => none)
+  | .error _ => none
+
+theorem predicted_of_statement (hS : C06_rows_Statement) (env : Env) (is : List Nat) (S : Situation env is)
+    (name : String) (e : Expr) (forced full : Bool) :
+    predicted (trainComp env name e forced false full) (env.rows is) =
+      (trainedValue (trainComp env name e forced false full)).map (selectRows · is) := by
+  cases h : trainComp env name e forced false full with
+  | error _ => rfl
+  | ok o =>
+    have := hS env is S name e forced full .error o h
+    simp [predicted, trainedValue, this]
+
+theorem exSituation (is : List Nat) (h : is.all (· < 4) = true) : Situation exEnv is :=
+  ⟨by decide, by decide, by simpa [List.all_eq_true, exEnv, exFrame, Frame.nrows] using h⟩
+
+def eD14 : Expr := call1 "binary" (var "k")
+def eD13 : Expr := call2 "C" (var "f") (kwarg "levels" (var "lv_f"))
+def eD13o : Expr := call1 "C" (var "co")
+
+/-- **D14** `binary(k)`: trained on k = 1,2,3,2 the success value is 1 and the column is 1,0,0,0;
+on rows 1,2 (k = 2,3) the success value is re-derived as 2 and the column is 1,0 instead of 0,0. -/
+theorem C06_counterexample_D14 : ¬ C06_rows_Statement := by
+  intro hS
+  have := predicted_of_statement hS exEnv [1, 2] (exSituation _ (by decide)) "binary(k)" eD14 false false
+  have h1 : predicted (trainComp exEnv "binary(k)" eD14 false false false) (exEnv.rows [1, 2])
+      = some [[some 1], [some 0]] := by decide +kernel
+  have h2 : (trainedValue (trainComp exEnv "binary(k)" eD14 false false false)).map (selectRows · [1, 2])
+      = some [[some 0], [some 0]] := by decide +kernel
+  rw [h1, h2] at this
+  exact absurd this (by decide)
+
+/-- **D13** `C(f, levels=lv_f)`: on rows 0,1 (f = a,b; level c absent) the `CategoricalBox.levels`
+setter raises ValueError, where the statement asks for the two training rows. -/
+theorem C06_counterexample_D13 : ¬ C06_rows_Statement := by
+  intro hS
+  have := predicted_of_statement hS exEnv [0, 1] (exSituation _ (by decide)) "C(f, levels = lv_f)" eD13
+    false false
+  have h1 : predicted (trainComp exEnv "C(f, levels = lv_f)" eD13 false false false) (exEnv.rows [0, 1])
+      = none := by decide +kernel
+  have h2 : (trainedValue (trainComp exEnv "C(f, levels = lv_f)" eD13 false false false)).map
+      (selectRows · [0, 1]) = some [[some 1, some 0], [some 0, some 1]] := by decide +kernel
+  rw [h1, h2] at this
+  exact absurd this (by decide)
+
+/-- D13, second form: `C(co)` over an ordered categorical, rows 0,1 (level "hi" absent) -/
+theorem C06_counterexample_D13_ordered : ¬ C06_rows_Statement := by
+  intro hS
+  have := predicted_of_statement hS exEnv [0, 1] (exSituation _ (by decide)) "C(co)" eD13o false false
+  have h1 : predicted (trainComp exEnv "C(co)" eD13o false false false) (exEnv.rows [0, 1]) = none := by
+    decide +kernel
+  have h2 : (trainedValue (trainComp exEnv "C(co)" eD13o false false false)).map (selectRows · [0, 1])
+      = some [[some 0, some 0], [some 1, some 0]] := by decide +kernel
+  rw [h1, h2] at this
+  exact absurd this (by decide)
+
+-- the counterexamples are exactly outside the guard
+example : RowwiseOk eD14 = false := by decide
+example : RowwiseOk eD13 = true ∧ D13Free exEnv eD13 = false := by decide +kernel
+example : RowwiseOk eD13o = true ∧ D13Free exEnv eD13o = false := by decide +kernel
+
+
+-- … and of the syntactic guard: `C(f, levels=lv_f)` is written with `levels`, `C(co)` names an
+-- ordered categorical column, `C(f, Sum)` passes both
+example : NoLevelsArg eD13 = false := by decide
+example : UnorderedNames exEnv eD13o = false := by decide +kernel
+example : NoLevelsArg (call2 "C" (var "f") (var "Sum")) = true ∧
+    UnorderedNames exEnv (call2 "C" (var "f") (var "Sum")) = true := by decide +kernel
+
+/-! ### the known-finding class D14 of the correspondence check lies outside the guard -/
+
+mutual
+theorem rowwiseOk_calls : ∀ (e : Expr) (callee : String) (as : Args), (callee, as) ∈ callsOf e →
+    excludedCallees.contains callee = true → RowwiseOk e = false
+  | .grouping _ e _, callee, as, hm, hc => by
+    simp only [callsOf] at hm; simp only [RowwiseOk]; exact rowwiseOk_calls e callee as hm hc
+  | .binary l _ r, callee, as, hm, hc => by
+    simp only [callsOf, List.mem_append] at hm
+    simp only [RowwiseOk, Bool.and_eq_false_iff]
+    rcases hm with hm | hm
+    · exact Or.inl (rowwiseOk_calls l callee as hm hc)
+    · exact Or.inr (rowwiseOk_calls r callee as hm hc)
+  | .unary _ r, callee, as, hm, hc => by
+    simp only [callsOf] at hm; simp only [RowwiseOk]; exact rowwiseOk_calls r callee as hm hc
+  | .call c _ args _, callee, as, hm, hc => by
+    simp only [callsOf, List.mem_append] at hm
+    simp only [RowwiseOk, Bool.and_eq_false_iff]
+    rcases hm with hm | hm
+    · right
+      cases c
+      case «variable» n =>
+        simp only [List.mem_singleton, Prod.mk.injEq] at hm
+        obtain ⟨rfl, rfl⟩ := hm
+        simp only [hc, Bool.not_true]
+      all_goals simp at hm
+    · exact Or.inl (rowwiseOkArgs_calls args callee as hm hc)
+  | .brace _ e _, callee, as, hm, hc => by
+    simp only [callsOf] at hm; simp only [RowwiseOk]; exact rowwiseOk_calls e callee as hm hc
+  | .assign _ _ v, callee, as, hm, hc => by
+    simp only [callsOf] at hm; simp only [RowwiseOk]; exact rowwiseOk_calls v callee as hm hc
+  | .variable _, _, _, hm, _ => by simp [callsOf] at hm
+  | .subset _ _ _ _, _, _, hm, _ => by simp [callsOf] at hm
+  | .quoted _, _, _, hm, _ => by simp [callsOf] at hm
+  | .literal _, _, _, hm, _ => by simp [callsOf] at hm
+theorem rowwiseOkArgs_calls : ∀ (args : Args) (callee : String) (as : Args), (callee, as) ∈ callsOfArgs args →
+    excludedCallees.contains callee = true → RowwiseOkArgs args = false
+  | .nil, _, _, hm, _ => by simp [callsOfArgs] at hm
+  | .last e, callee, as, hm, hc => by
+    simp only [callsOfArgs] at hm; simp only [RowwiseOkArgs]; exact rowwiseOk_calls e callee as hm hc
+  | .more e _ rest, callee, as, hm, hc => by
+    simp only [callsOfArgs, List.mem_append] at hm
+    simp only [RowwiseOkArgs, Bool.and_eq_false_iff]
+    rcases hm with hm | hm
+    · exact Or.inl (rowwiseOk_calls e callee as hm hc)
+    · exact Or.inr (rowwiseOkArgs_calls rest callee as hm hc)
+end
+
+/-- Consistency of the known-finding class with the guard: every (formula, frame, new frame) the
+correspondence check attributes to D14 (`Spec.C06.classD14`) lies outside the row-wise fragment, so
+no theorem above speaks about it. -/
+theorem C06_classD14_outside_guard (trainEnv newEnv : Env) (e : Expr)
+    (h : classD14 trainEnv newEnv e = true) : RowwiseOk e = false := by
+  simp only [classD14, List.any_eq_true, Bool.and_eq_true, Bool.or_eq_true, beq_iff_eq] at h
+  obtain ⟨⟨callee, as⟩, hm, hc, _⟩ := h
+  apply rowwiseOk_calls e callee as hm
+  simp only [excludedCallees, List.contains_cons, List.contains_nil, Bool.or_false, Bool.or_eq_true,
+    beq_iff_eq]
+  simpa [eq_comm] using hc
+
+
+/-! ### non-vacuity: `center(x):f` and `(center(x) | g)` on a selection that drops a level and
+repeats a row -/
+
+def exTable : List (String × Expr) :=
+  [("center(x)", call1 "center" (var "x")), ("f", var "f"), ("g", var "g"), ("C(f, Sum)", call2 "C" (var "f") (var "Sum"))]
+
+def exTerm : TermSpec := { name := "center(x):f", comps := [("center(x)", false), ("f", true)] }
+def exGroup : GroupSpec :=
+  { name := "center(x)|g", expr := some { name := "center(x)", comps := [("center(x)", false)] },
+    factor := { name := "g", comps := [("g", true)] } }
+/-- rows 2, 2, 0: level `b` of `f` is dropped, row 2 is repeated, the mean of `x` differs (10/3 vs 3) -/
+def exSel : List Nat := [2, 2, 0]
+
+def termData (r : M TermOut) : Option Matrix :=
+  match r with
+  | .ok o => some o.data
+  | .error _ => none
+
+-- the guards hold and training succeeds, so the hypotheses of the theorems are satisfiable …
+example : termOkB exEnv exTable exTerm = true := by decide +kernel
+example : groupOkB exEnv exTable exGroup = true := by decide +kernel
+example : designOkB exEnv exTable [none, some exTerm, some ⟨"C(f, Sum)", [("C(f, Sum)", false)]⟩] [exGroup] = true := by
+  decide +kernel
+example : termData (trainTerm exEnv exTable exTerm false false) =
+    some [[some (-2), some 0, some 0], [some 0, some (-1), some 0], [some 0, some 0, some 1],
+          [some 2, some 0, some 0]] := by decide +kernel
+-- … the state remembered by `center` is the training mean 3 …
+example : (match evalArg exEnv (call1 "center" (var "x")) none with
+    | .ok (none, .vec xs false, .node (some m) [.leaf]) =>
+      xs == [some (-2), some (-1), some 1, some 2] && m == 3
+    | _ => false) = true := by
+  decide +kernel
+-- … and the instance of the theorem: the new matrix is rows 2, 2, 0 of the training matrix
+-- (centred with the training mean 3, not with the mean 10/3 of the new rows)
+example : ∀ out, trainTerm exEnv exTable exTerm false false = .ok out →
+    newTerm out.st (exEnv.rows exSel) .error = .ok (selectRows out.data exSel, false) :=
+  fun out h => C06_rows_term exEnv exSel (exSituation _ (by decide)) exTable exTerm false .error out
+    (by decide +kernel) h
+example : ∀ out, trainGroup exEnv exTable exGroup = .ok out →
+    newGroup out.st (exEnv.rows exSel) .error = .ok (selectRows out.data exSel, false) :=
+  fun out h => C06_rows_group exEnv exSel (exSituation _ (by decide)) exTable exGroup .error out
+    (by decide +kernel) h
+example : (match trainTerm exEnv exTable exTerm false false with
+    | .ok out => (match newTerm out.st (exEnv.rows exSel) .error with
+      | .ok (m, _) => some m
+      | .error _ => none)
+    | .error _ => none) =
+    some [[some 0, some 0, some 1], [some 0, some 0, some 1], [some (-2), some 0, some 0]] := by
+  decide +kernel
 
 end FormulaeModel.C06
